@@ -536,16 +536,55 @@ namespace
   {
     if (i >= toks.size ())
       throw spec_error {"value expected"};
-    std::string const &t = toks[i++];
+    // Every token may carry the position of the value as a suffix @N
+    // (for a sequence on its closing bracket: ]@N).
+    std::string t = toks[i++];
+    if (t[0] == '~')
+      {
+	// ~TOKEN@N: build the value at position 0, then give it position N
+	// with zw_value_clone, as a client that re-uses a value would.
+	--i;
+	std::vector <std::string> tmp = toks;
+	size_t p = 0;
+	auto at = tmp[i].rfind ('@');
+	if (at != std::string::npos && tmp[i][1] != '[')
+	  {
+	    p = strtoull (tmp[i].c_str () + at + 1, nullptr, 10);
+	    tmp[i].erase (at);
+	  }
+	tmp[i].erase (0, 1);
+	auto v = parse_value (tmp, i);
+	zw_error *err = nullptr;
+	zw_value *c = zw_value_clone (v.get (), p, &err);
+	if (c == nullptr)
+	  {
+	    std::string m = zw_error_message (err);
+	    zw_error_destroy (err);
+	    throw spec_error {m};
+	  }
+	return std::unique_ptr <zw_value> (c);
+      }
+    size_t pos = 0;
+    auto split_pos = [] (std::string &tok, size_t &p)
+      {
+	auto at = tok.rfind ('@');
+	if (at != std::string::npos)
+	  {
+	    p = strtoull (tok.c_str () + at + 1, nullptr, 10);
+	    tok.erase (at);
+	  }
+      };
+    split_pos (t, pos);
     if (t == "[")
       {
 	value_seq::seq_t vv;
-	while (i < toks.size () && toks[i] != "]")
+	while (i < toks.size () && toks[i][0] != ']')
 	  vv.push_back (parse_value (toks, i));
 	if (i >= toks.size ())
 	  throw spec_error {"unterminated ["};
-	++i;
-	return std::make_unique <value_seq> (std::move (vv), 0);
+	std::string close = toks[i++];
+	split_pos (close, pos);
+	return std::make_unique <value_seq> (std::move (vv), pos);
       }
     if (t[0] == 'I' || t[0] == 'J')
       {
@@ -561,10 +600,10 @@ namespace
 	zw_value *v;
 	if (num[0] == '-' || t[0] == 'J')
 	  v = zw_value_init_const_i64 (strtoll (num.c_str (), nullptr, 10),
-				       dom, 0, &err);
+				       dom, pos, &err);
 	else
 	  v = zw_value_init_const_u64 (strtoull (num.c_str (), nullptr, 10),
-				       dom, 0, &err);
+				       dom, pos, &err);
 	if (v == nullptr)
 	  {
 	    std::string m = zw_error_message (err);
@@ -579,7 +618,7 @@ namespace
 	if (! unhex (t.substr (1), s))
 	  throw spec_error {"bad hex " + t};
 	zw_error *err = nullptr;
-	zw_value *v = zw_value_init_str_len (s.data (), s.size (), 0, &err);
+	zw_value *v = zw_value_init_str_len (s.data (), s.size (), pos, &err);
 	if (v == nullptr)
 	  {
 	    std::string m = zw_error_message (err);
@@ -595,7 +634,7 @@ namespace
 	if (it == g_values.end ())
 	  throw spec_error {"bad value handle " + t};
 	zw_error *err = nullptr;
-	zw_value *v = zw_value_clone (it->second, 0, &err);
+	zw_value *v = zw_value_clone (it->second, pos, &err);
 	if (v == nullptr)
 	  {
 	    std::string m = zw_error_message (err);
